@@ -30,6 +30,9 @@ def srcOps : CoreOps where
   makeContiguous := Gen.make_contiguous
   iterNew := Gen.Iter_new
   iterOverRange := Gen.Iter_over_range
+  iterNext := Gen.Iter_next
+  iterNextBack := Gen.Iter_next_back
+  iterLen := Gen.Iter_len
   drainNew := Gen.Drain_over_range
   drainNext := Gen.Drain_next
   drainNextBack := Gen.Drain_next_back
